@@ -36,7 +36,9 @@ def one_average(seed, norb, ne, nchol, dt, ene0):
     rng = random.Random(seed)
     nodes, wts = qd.gh_nodes(nchol, 10 if nchol <= 2 else 8)
     n = len(wts)
-    S = qd.build(rng, "uhf", "unrestricted", norb, ne, nchol, dt, True, n)
+    # the propagator's own batching is part of the step: batch counts 1, 2, 4 or one walker per batch, by seed
+    pb = [b for b in (1, 2, 4, n) if n % b == 0][seed % len([b for b in (1, 2, 4, n) if n % b == 0])]
+    S = qd.build(rng, "uhf", "unrestricted", norb, ne, nchol, dt, True, n, prop_batch=pb)
     # ene0 enters the free-projection constants through ham_data["ene0"]
     hd = dict(S["ham_data"])
     hd["ene0"] = ene0
@@ -69,8 +71,8 @@ def multistep(seed, norb, ne, nchol, dt, nsteps, spec_fail):
     import fock
     import trials
     rng = random.Random(seed)
-    n = 3
-    S = qd.build(rng, "uhf", "unrestricted", norb, ne, nchol, dt, True, n)
+    n = (3, 4, 6)[seed % 3]
+    S = qd.build(rng, "uhf", "unrestricted", norb, ne, nchol, dt, True, n, prop_batch=(1, 2, 3)[seed % 3])
     prop, trial, hd, wd = S["prop"], S["trial"], S["ham_data"], S["wave_data"]
     Wa = [wf.complex_walker(rng, norb, ne[0]) for _ in range(n)]
     Wb = [wf.complex_walker(rng, norb, ne[1]) for _ in range(n)]
